@@ -140,6 +140,15 @@ Theorem C04_bystanders :
 Proof. exact bystanders_thm. Qed.
 Print Assumptions C04_bystanders.
 
+(* the wire model the driver runs concatenates the lines of the sink calls of a branch in the
+   commit order once (linear in the size of the case, so that entries of several hundred KiB can
+   be judged); for EVERY input that is exactly what the serial execution of those sink calls on
+   the sink objects (Lock: chunk appends; BufferedWriteSyncer: pre-flush rule + bufio) leaves in
+   every underlying sink after the final Sync *)
+Theorem C04_model_serial : forall i, model i = model_serial i.
+Proof. exact model_serial_eq. Qed.
+Print Assumptions C04_model_serial.
+
 (* the driver's oracle accepts what the model computes, for every well-formed case *)
 Theorem C04_wire : forall i, wf i = true -> spec i (model i) = true.
 Proof. exact spec_model. Qed.
